@@ -130,7 +130,7 @@ UNITS = [
 VERIFIED_CALLEES = ("ast_get_call_positional_indexes", "ast_get_call_keyword_names", "get_arg_kind_index")
 LEVEL = "other"
 TECHNIQUE = "contract-based verification of the list-algebra helpers (complete case analysis of small shapes through the real AST) + bounded comparison of the resolver with the interpreter on generated source files"
-LEVEL_TEXT = "under construction"
+LEVEL_TEXT = "The resolver proper is a static analysis of the user's source: no contract within reach expresses its soundness; it is compared with the interpreter by the bounded harness (1276 generated programs). Proved are the list-algebra helpers that implement three clauses: remove_given_parameters (hard-coded positions and keywords are not offered, order kept), replace_args_and_kwargs (no duplicate names, every element is an object of its own signature), split_args_and_kwargs - complete case analysis of all shapes with <= 4 parameters."
 LEVEL_NOTE = "under construction"
 EXPLANATION = "under construction"
 ASSUMPTIONS = []
